@@ -317,6 +317,17 @@ def c15_semantics(r, seed, tier, model_ok):
             nested = ev(f"ㅁ ㅂ {inner_imp} ㅎ ㅎㄴ ㅎ ㅎㄴ".replace(f"ㅁ ㅂ {inner_imp} ㅎ ㅎㄴ ㅎ ㅎㄴ", f"ㅁ ㅂ {inner_imp} ㅎ ㅎㄴ ㅎ ㅎㄴ")) if False else ev(f"ㅂ ㅁ {inner_imp} ㅎ ㅎㄴ ㅎ ㅎㄴ")
             n += 1; cnt["context-free"] += 1
             if not (alone == top == nested): bad.append(dict(program=f"{inner_imp}   (module text: {body})", impl=f"alone={alone} top={top} nested={nested}", model="equal", which=["context_free"]))
+            # (2b) one object per FILE, not per spelling: a path whose LEXICAL normal form names an already imported file but which reaches a
+            # different file (".." after a symbolic link to a directory); the earlier import must not change what the later one yields
+            if trial % 3 == 0:
+                os.makedirs(os.path.join("pkg", "lib"), exist_ok=True); v1, v2 = R.sample(range(10, 60), 2)
+                open("conf", "w").write(E(v1)); open(os.path.join("pkg", "conf"), "w").write(E(v2)); os.symlink(os.path.join("pkg", "lib"), "cur")
+                first = f"{strlit('conf')} ㅂㅎㄴ"; second = f"{strlit('cur/../conf')} ㅂㅎㄴ"          # cur/../conf IS pkg/conf
+                MOD._MODULE_REGISTRY.clear(); alone2 = ev(second)
+                MOD._MODULE_REGISTRY.clear(); seq = [ev(first), ev(second)]; both = ev(f"{first} {second} ㅁㄹㅎㄷ"); n += 3; cnt["dotdot-through-symlinked-directory"] += 1
+                if alone2 != f"V {v2}" or seq != [f"V {v1}", f"V {v2}"] or both != f"V [{v1}, {v2}]":
+                    bad.append(dict(program=f"{first} ; then {second}   (cur -> pkg/lib, so cur/../conf is pkg/conf = {v2}; ./conf = {v1})", impl=f"alone: {alone2}; in sequence: {seq}; in one list: {both}", model=f"V {v2} alone and after the other import; [{v1}, {v2}] together", which=["import_once"]))
+                MOD._MODULE_REGISTRY.clear()
             # (3) bad modules
             open("empty", "w").write(""); open("two", "w").write("ㄱ ㄴ"); os.makedirs("ㄹ", exist_ok=True); open("ㅁ", "w").write("ㄱ"); open("ㅁㅏ", "w").write("ㄴ")
             for what, prog in [("missing-path", f"{strlit('nope/none')} ㅂㅎㄴ"), ("empty", f"{strlit('empty')} ㅂㅎㄴ"), ("two-expressions", f"{strlit('two')} ㅂㅎㄴ"),
